@@ -228,6 +228,44 @@ fn tree_str(t: &Tree, f: &str) -> Option<String> {
     }
 }
 
+const SK1_ROTATED: &str = "Zr0tatedSecretKeyAfterTheOldOneWasRevoked9";
+
+thread_local! {
+    /// a second service in the same process whose provider knows AK1 under another secret (after a rotation)
+    static ENV_ROTATED: Env = build_env(&EnvCfg { host: HostCfg::None, keys: Some(vec![(AK1.to_owned(), SK1_ROTATED.to_owned())]), provider_denies: None, access: Some(AccessMode::AllowAll), route: RouteMode::None });
+}
+
+/// "signed with the provider's secret for the access key named in the form": histories of 2-5 policy-compliant forms
+/// for one access key, each signed with one of two secrets and sent to one of two services whose providers hold one
+/// secret each.  Whatever was verified before, a form is accepted iff it was signed with the asked provider's secret.
+fn secret_per_provider(c: &mut Case<'_>) -> CaseResult {
+    let n = 2 + c.t.below(4);
+    let mut history = Vec::new();
+    for step in 0..n {
+        let b = gen_form(c, 600);
+        let signed_with_rotated = c.t.bool();
+        let sent_to_rotated = c.t.bool();
+        let signer = Signer { access_key: AK1.into(), secret: if signed_with_rotated { SK1_ROTATED } else { SK1 }.into(), ..b.signer.clone() };
+        let mut form = b.form.clone();
+        postform::sign_form(&mut form, &b.policy.to_base64(), &signer);
+        let req = form_request(&b.bucket, &form);
+        let out = if sent_to_rotated { ENV_ROTATED.with(|env| run_req(env, &req, None, false)) } else { ENV.with(|env| run_req(env, &req, None, false)) }.map_err(crate::engine::Stop::Discard)?;
+        let want = signed_with_rotated == sent_to_rotated;
+        let got = out.calls.iter().any(|call| call.op == "PutObject") && out.status < 300;
+        history.push(format!("form signed with the {} secret -> provider holding the {} secret: {}", if signed_with_rotated { "new" } else { "old" }, if sent_to_rotated { "new" } else { "old" }, if got { "stored".to_owned() } else { format!("refused ({} {:?})", out.status, out.code) }));
+        if want != got {
+            c.nontrivial();
+            let sig = if got { "accepts-invalid-signature:secret-of-another-provider" } else { "rejects-valid-form:secret-history" };
+            return Err(c.fail(sig, format!("step {step}: expected {}\n{}\nfields {:?}", if want { "stored" } else { "refused" }, history.join("\n"), form.fields)));
+        }
+    }
+    c.nontrivial();
+    c.fp(&history);
+    c.label(format!("steps:{n}"));
+    c.set_sample(|| json!({"history": history}));
+    Ok(())
+}
+
 fn case(c: &mut Case<'_>) -> CaseResult {
     let max_file = if c.tier == crate::engine::Tier::Quick { 20_000 } else { 262_144 };
     let mut b = gen_form(c, max_file);
@@ -469,4 +507,5 @@ pub fn run(r: &mut Runner) {
         if fo.calls.is_empty() { Ok(()) } else { Err(c.fail("scope-date-unbound", "form with altered credential scope date was stored".to_string())) }
     });
     r.search("forms", r.scale(8_000, 300_000), 1024, case);
+    r.search("secret-per-provider", r.scale(600, 20_000), 2048, secret_per_provider);
 }
